@@ -5,12 +5,12 @@ V = os.path.dirname(os.path.dirname(os.path.abspath(__file__)))
 
 CHECKS = {
  "C01": dict(
-   text="Bounded-exhaustive exploration of the real write path: every (key, degree 1..15 x quality, dictionary look-up, bass) chord (quick: the two faces no-bass and bass x {'', m7}; thorough: the full 8.98 M product), the key-in-force state graph (29 states x 58 operations, BFS to fixpoint, every edge replayed on the implementation), all key-change histories of length <= 4/5 over {chord, rest} x {-, Cb, F#m, A} with and without --key, every ordered pair of look-ups as [A B A B], a CLI slice for the glue in package main; plus long documents: periodic pieces of 130 and 300 (thorough: 1100) instances with exactly one deviation (key change, key repeated, tempo, meter, dynamic, text, 700-beat rest, 1/64 value, other symbol / degree / bass, two values, chord<->rest) at every position (130) or every counting boundary 63..257 (300); struck pitches decoded by an independent SMF reader and compared chord by chord with 60+tonic+degree(+tone | +bass-12).",
+   text="Bounded-exhaustive exploration of the real write path: every (key, degree 1..15 x quality, dictionary look-up, bass) chord (quick: the two faces no-bass and bass x {'', m7}; thorough: the full 8.98 M product), the key-in-force state graph (29 states x 58 operations, BFS to fixpoint, every edge replayed on the implementation), all key-change histories of length <= 4/5 over {chord, rest} x {-, Cb, F#m, A} with and without --key, every ordered pair of look-ups as [A B A B], a CLI slice for the glue in package main; plus long documents: periodic pieces of 130 and 300 (thorough: 1100) instances with exactly one deviation (key change, key repeated, tempo, meter, dynamic, text, 700-beat rest, 1/64 value, other symbol / degree / bass, two values, chord<->rest) at every position (130) or every counting boundary 63..257 (300); struck pitches decoded by an independent SMF reader and compared chord by chord with 60+tonic+degree(+tone | +bass-12). YAML spellings of a piece (3 pieces incl. a one-line document of 85 kB x 12 spellings: aliases, flow/JSON, comments, markers, directive, BOM, CR LF, indentation) must give the file of the plain spelling. One piece per key holding every (degree <= 24, look-up) chord inside the MIDI range in three orders; long documents with two deviations (every ordered pair of kinds).",
    note="Trusted: ref/theory, ref/dict (own expansion of chord/*.yml on disk, parent first), ref/smf, yaml.v3. Verdict relative to the alphabets; unbounded only for the key-in-force graph under the abstraction that the key in force is the only carried state that pitches depend on.",
    technique="bounded-exhaustive enumeration of chords and key-change histories + explicit-state BFS of the key-in-force machine on the real code vs. reference model",
    ref="DESIGN.md §4 C01"),
  "C02": dict(
-   text="All histories up to length 3 (thorough: 4-5 on sub-alphabets) over {chord, chord, rest} x 29 duration lists incl. non-unit numerators, denominators not dividing 960, exact half-tick ties, 1/2000, 69 and 70 000 beats and several fractions per instance, on 1 and 3 tracks, in-process and through the binary; plus long documents: periodic pieces of 130 and 300 (thorough: 1100) instances with exactly one deviation (key change, key repeated, tempo, meter, dynamic, text, 700-beat rest, 1/64 value, other symbol / degree / bass, two values, chord<->rest) at every position (130) or every counting boundary 63..257 (300) on 1 and 3 tracks (clock past 2^14, 2^16 and 2^21 ticks); note-on/off ticks compared with exact rational arithmetic (either neighbour on ties), release-before-strike per track; plus explicit-state accounting of the real midix writer (observational: the file is decoded after every prefix + Close).",
+   text="All histories up to length 3 (thorough: 4-5 on sub-alphabets) over {chord, chord, rest} x 29 duration lists incl. non-unit numerators, denominators not dividing 960, exact half-tick ties, 1/2000, 69 and 70 000 beats and several fractions per instance, on 1 and 3 tracks, in-process and through the binary; plus long documents: periodic pieces of 130 and 300 (thorough: 1100) instances with exactly one deviation (key change, key repeated, tempo, meter, dynamic, text, 700-beat rest, 1/64 value, other symbol / degree / bass, two values, chord<->rest) at every position (130) or every counting boundary 63..257 (300) on 1 and 3 tracks (clock past 2^14, 2^16 and 2^21 ticks); note-on/off ticks compared with exact rational arithmetic (either neighbour on ties), release-before-strike per track; plus explicit-state accounting of the real midix writer (observational: the file is decoded after every prefix + Close). YAML spellings of a piece (3 pieces incl. a one-line document of 85 kB x 12 spellings: aliases, flow/JSON, comments, markers, directive, BOM, CR LF, indentation) must give the file of the plain spelling. Durations on the boundaries of the variable-length delta encoding (127/128, 16383/16384, 2^21 ticks) and around what a delta / a 32-bit counter can hold (2^28, 2^32 ticks: refused or exact).",
    note="Trusted: math/big, ref/smf. Bounded: histories up to the stated lengths; the accounting search is depth-capped (values grow without bound).",
    technique="bounded-exhaustive history enumeration + explicit-state search with a clock invariant on the real writer",
    ref="DESIGN.md §4 C02"),
@@ -20,17 +20,17 @@ CHECKS = {
    technique="bounded-exhaustive string enumeration + explicit-state search of the grammar x lexer-mode graph with every model edge replayed on the implementation",
    ref="DESIGN.md §4 C04"),
  "C06": dict(
-   text="All histories up to length 4 over 7 instance shapes x every track count 1..32 (length 5 for N in {1,2,3,4,7}) through the real write path, in-process and through the binary; plus long documents: periodic pieces of 130 and 300 (thorough: 1100) instances with exactly one deviation (key change, key repeated, tempo, meter, dynamic, text, 700-beat rest, 1/64 value, other symbol / degree / bass, two values, chord<->rest) at every position (130) or every counting boundary 63..257 (300) x N in {2,3,16}: merged (tick,event) multiset equal to that of --track 1, every end-of-track at the exact total, N chunks; explicit-state accounting of the real writer with Close for N = 1..4 (every track stands at the total after Close); --track 0/-1 refused.",
+   text="All histories up to length 4 over 7 instance shapes x every track count 1..32 (length 5 for N in {1,2,3,4,7}) through the real write path, in-process and through the binary; plus long documents: periodic pieces of 130 and 300 (thorough: 1100) instances with exactly one deviation (key change, key repeated, tempo, meter, dynamic, text, 700-beat rest, 1/64 value, other symbol / degree / bass, two values, chord<->rest) at every position (130) or every counting boundary 63..257 (300) x N in {2,3,16}: merged (tick,event) multiset equal to that of --track 1, every end-of-track at the exact total, N chunks; explicit-state accounting of the real writer with Close for N = 1..4 (every track stands at the total after Close); --track 0/-1 refused. YAML spellings of a piece (3 pieces incl. a one-line document of 85 kB x 12 spellings: aliases, flow/JSON, comments, markers, directive, BOM, CR LF, indentation) must give the file of the plain spelling. User chords of 1..40 tones x every track count 1..40 (more tones than tracks, as many, fewer).",
    note="Trusted: ref/smf, ref/timing. Bounded by history length and N <= 32; accounting depth-capped.",
    technique="bounded-exhaustive history x configuration enumeration with a metamorphic oracle + explicit-state search with a clock invariant",
    ref="DESIGN.md §4 C06"),
  "C07": dict(
-   text="Deviation-bounded choice-tree search over settings histories (kind chord/rest free; each present setting of bpm, meter, key, velocity, txt, lic, mrk is one deviation; length <= 3 with <= 3/4 deviations, length <= 4 with <= 2/3, also with repeated values), value sweeps of every setting at instance 0 and after a rest, in-process, through the binary and as flags (34 tempos across the byte/16/24/32/63/64-bit boundaries, 28 meters incl. those a MIDI file cannot state - these must be refused -, 28 keys, 6 dynamics, 17 texts incl. 127/128/16383/16384-byte ones), 16 flag subsets x 256 two-instance documents and rest-first documents, YAML spellings (aliases, flow style), long documents: periodic pieces of 130 and 300 (thorough: 1100) instances with exactly one deviation (key change, key repeated, tempo, meter, dynamic, text, 700-beat rest, 1/64 value, other symbol / degree / bass, two values, chord<->rest) at every position (130) or every counting boundary 63..257 (300), and an explicit-state search of the real midiArgs cells to fixpoint (243 value-class states x 64 operations, emitted calls compared as multisets on every edge).",
+   text="Deviation-bounded choice-tree search over settings histories (kind chord/rest free; each present setting of bpm, meter, key, velocity, txt, lic, mrk is one deviation; length <= 3 with <= 3/4 deviations, length <= 4 with <= 2/3, also with repeated values), value sweeps of every setting at instance 0 and after a rest, in-process, through the binary and as flags (34 tempos across the byte/16/24/32/63/64-bit boundaries, 28 meters incl. those a MIDI file cannot state - these must be refused -, 28 keys, 6 dynamics, 17 texts incl. 127/128/16383/16384-byte ones), 16 flag subsets x 256 two-instance documents and rest-first documents, YAML spellings (aliases, flow style), long documents: periodic pieces of 130 and 300 (thorough: 1100) instances with exactly one deviation (key change, key repeated, tempo, meter, dynamic, text, 700-beat rest, 1/64 value, other symbol / degree / bass, two values, chord<->rest) at every position (130) or every counting boundary 63..257 (300), and an explicit-state search of the real midiArgs cells to fixpoint (243 value-class states x 64 operations, emitted calls compared as multisets on every edge). YAML spellings of a piece (3 pieces incl. a one-line document of 85 kB x 12 spellings: aliases, flow/JSON, comments, markers, directive, BOM, CR LF, indentation) must give the file of the plain spelling.",
    note="Trusted: ref/play, ref/theory, ref/smf; velocities are learned from the run (order, not numbers, is prescribed). Unbounded only for the midiArgs graph under its stated abstraction.",
    technique="deviation-bounded stateless search + explicit-state BFS to fixpoint on the real settings machine vs. reference model",
    ref="DESIGN.md §4 C07"),
  "C08": dict(
-   text="Every file produced for all histories up to length 2/3 over 15 instance shapes (incl. out-of-range degrees, bass doubling a tone, lowest pitch, 200-byte text, extreme tempo/meter) x track counts up to 256 (and 1000), every --program 0..255, instrument names around the VLQ boundary, over-long durations around 2^28 ticks, long documents: periodic pieces of 130 and 300 (thorough: 1100) instances with exactly one deviation (key change, key repeated, tempo, meter, dynamic, text, 700-beat rest, 1/64 value, other symbol / degree / bass, two values, chord<->rest) at every position (130) or every counting boundary 63..257 (300) x N in {1,3}, through the binary and in-process, parsed by a strict SMF reader written from the specification that shares no code with the writer; format/ntrks/one-EOT-last/balanced notes/control events in track 0.",
+   text="Every file produced for all histories up to length 2/3 over 15 instance shapes (incl. out-of-range degrees, bass doubling a tone, lowest pitch, 200-byte text, extreme tempo/meter) x track counts up to 256 (and 1000), every --program 0..255, instrument names around the VLQ boundary, over-long durations around 2^28 ticks, long documents: periodic pieces of 130 and 300 (thorough: 1100) instances with exactly one deviation (key change, key repeated, tempo, meter, dynamic, text, 700-beat rest, 1/64 value, other symbol / degree / bass, two values, chord<->rest) at every position (130) or every counting boundary 63..257 (300) x N in {1,3}, through the binary and in-process, parsed by a strict SMF reader written from the specification that shares no code with the writer; format/ntrks/one-EOT-last/balanced notes/control events in track 0. YAML spellings of a piece (3 pieces incl. a one-line document of 85 kB x 12 spellings: aliases, flow/JSON, comments, markers, directive, BOM, CR LF, indentation) must give the file of the plain spelling. User chords of up to 40 tones x track counts up to 256.",
    note="Trusted: ref/smf. Bounded by the stated alphabets; N >= 65536 excluded.",
    technique="bounded-exhaustive enumeration of documents x configurations on the real code vs. a strict independent SMF decoder",
    ref="DESIGN.md §4 C08"),
@@ -50,17 +50,17 @@ CHECKS = {
    technique="exhaustive enumeration of the finite input space on the real code vs. reference model",
    ref="DESIGN.md §4 C03"),
  "C05": dict(
-   text="All progressions up to length 2 over 97 abstract chords (and 3..4 over a 10-element sub-alphabet) in each of the 28 keys rendered as degree text and as note-name text must convert to the same bytes; every placement of {key=..} on a 4-element progression x 6^3 key triples plus the complete 28 x 28 converter-scale change graph (every edge replayed); 6 documents under all 28 x 28 pairs of --key values differ by the tonic distance only.",
+   text="All progressions up to length 2 over 97 abstract chords (and 3..4 over a 10-element sub-alphabet) in each of the 28 keys rendered as degree text and as note-name text must convert to the same bytes; every placement of {key=..} on a 4-element progression x 6^3 key triples plus the complete 28 x 28 converter-scale change graph (every edge replayed); 6 documents under all 28 x 28 pairs of --key values differ by the tonic distance only. Long progressions: 130 chords with a key change at every position and the change back 50 chords later, in 6 (thorough: 28) keys.",
    note="Metamorphic oracles; ref/theory for spelling and tonic distance. Bounded by progression length and alphabets; the scale-change graph is complete.",
    technique="bounded-exhaustive enumeration with metamorphic oracles + complete state graph of the converter scale",
    ref="DESIGN.md §4 C05"),
  "C09": dict(
-   text="Bounded-exhaustive deviations from valid inputs and bounded-exhaustive short inputs on every command, observed at the real binary: all chord texts <= 2/3 over 22 symbols on the three text commands and all YAML strings <= 2 on the four write commands; every one-deviation byte mutant (truncation, deletion, replacement/insertion by 20 bytes at every position) of valid chord texts, instance documents and dictionary files; the complete nonsense table (value x channel {text metadata, YAML field, flag} x interpreting command, each also with -o, pass-through nonsense piped into write); a flag-value table; --debug variants; plus in-process sweeps one symbol longer with clock-free hang detection. Oracle: terminates, no panic/fatal/signal, exit 0 or (exit != 0, stderr diagnostic, empty stdout, -o empty/absent); nonsense refused by the first interpreting stage.",
+   text="Bounded-exhaustive deviations from valid inputs and bounded-exhaustive short inputs on every command, observed at the real binary: all chord texts <= 2/3 over 22 symbols on the three text commands and all YAML strings <= 2 on the four write commands; every one-deviation byte mutant (truncation, deletion, replacement/insertion by 20 bytes at every position) of valid chord texts, instance documents and dictionary files; the complete nonsense table (value x channel {text metadata, YAML field, flag} x interpreting command, each also with -o, pass-through nonsense piped into write); a flag-value table; --debug variants; plus in-process sweeps one symbol longer with clock-free hang detection. Oracle: terminates, no panic/fatal/signal, exit 0 or (exit != 0, stderr diagnostic, empty stdout, -o empty/absent); nonsense refused by the first interpreting stage. Also: every data-producing command x destinations that cannot take the result (full device, missing directory, directory, read-only file) and sources that cannot be read; 2..300 dictionary files; pairs of write flags; track counts around 2^15/2^16; a panic recovered by fmt counts as a crash; neutral arguments (flags at their empty/zero default, /dev/null as empty stdin, 18 awkward file names) must not change the result.",
    note="Hang watchdog is wall clock but lax and re-run (10 s, then 3 x 30 s). One open known finding (goyacc trace on stdout under --debug). Bounded by input length and one deviation.",
    technique="deviation-bounded exhaustive fault/input enumeration against the real binary with a failure-shape oracle",
    ref="DESIGN.md §4 C09"),
  "C10": dict(
-   text="Complete value spaces of every scalar field (356 intervals as degree and base, 28 keys, 52^2 fractions and meters incl. 32/64-bit boundaries, bpm 1..2000, dynamics, all strings <= 3 over a 21-character YAML-hostile alphabet as metadata values and keys) printed the way text conv does and re-read the way write does and generically; 769 chord texts through text conv | write compared with ref/play's meaning of the text; all documents <= 2 over 8 shapes through write conv | write vs write.",
+   text="Complete value spaces of every scalar field (356 intervals as degree and base, 28 keys, 52^2 fractions and meters incl. 32/64-bit boundaries, bpm 1..2000, dynamics, all strings <= 3 over a 21-character YAML-hostile alphabet as metadata values and keys) printed the way text conv does and re-read the way write does and generically; 769 chord texts through text conv | write compared with ref/play's meaning of the text; all documents <= 2 over 8 shapes through write conv | write vs write. write conv round trip also over every history of length 3 over {absent, default, other} per setting and long documents; metadata values that look like YAML escapes; 20 entries and 300-byte keys on one instance.",
    note="Trusted: yaml.v3 as generic reader. One open known finding (metadata key <<). Strings starting with a line break are excluded (yaml.v3 itself does not round-trip them).",
    technique="exhaustive enumeration of value spaces through the real print/parse pair + bounded-exhaustive pipeline histories vs. reference model",
    ref="DESIGN.md §4 C10"),
@@ -70,17 +70,17 @@ CHECKS = {
    technique="deviation-bounded stateless search over spelling choices with a metamorphic oracle",
    ref="DESIGN.md §4 C11"),
  "C14": dict(
-   text="Explicit-state: the 28 key states x 4 conversions (every spelling of every circle member is a start state), every edge checked against pitch-class arithmetic, closed under the conversions (fixpoint); all 152 880 chains up to length 6 from all 28 keys in-process, all chains up to length 3/4 and closure chains of length 12/24/48 through `crd info key conv`; laws asserted directly.",
+   text="Explicit-state: the 28 key states x 4 conversions (every spelling of every circle member is a start state), every edge checked against pitch-class arithmetic, closed under the conversions (fixpoint); all 152 880 chains up to length 6 from all 28 keys in-process, all chains up to length 3/4 and closure chains of length 12/24/48 through `crd info key conv`; laws asserted directly. Pumped chains: every word of length <= 3 repeated to 12..480 letters.",
    note="Trusted: ref/theory. Result sets compared as sets.",
    technique="explicit-state exploration of the 28-key graph to fixpoint + bounded-exhaustive chain enumeration vs. reference model",
    ref="DESIGN.md §4 C14"),
  "C15": dict(
-   text="Numbers 1..64 (and to 200) x 7 qualities: existence, size, notation, print/parse; all 55 986 notation strings of length <= 6 over {b,#,0,1,2,9}; `info attr describe` for 21 roots x 67 attributes x both preferences (complete) and `info chord describe` for roots x 46 look-ups x 2 through the real binary, checked with the spelling equation.",
+   text="Numbers 1..64 (and to 200) x 7 qualities: existence, size, notation, print/parse; all 55 986 notation strings of length <= 6 over {b,#,0,1,2,9}; `info attr describe` for 21 roots x 67 attributes x both preferences (complete) and `info chord describe` for roots x 46 look-ups x 2 through the real binary, checked with the spelling equation. `gen attr -d N` for 14 bounds up to 200: names, notations, completeness.",
    note="Trusted: ref/theory size formula.",
    technique="exhaustive enumeration of interval and notation spaces on the real code vs. reference model",
    ref="DESIGN.md §4 C15"),
  "C16": dict(
-   text="Built-ins complete (46 look-ups played and compared with the conventional table, every ordered pair as [A B A], name = display, 67 attribute names, generated = embedded = listed); all user dictionaries with n <= 2 (3 reduced in thorough) chords over the option product name {fresh, unnamed} x extends {none, built-in by name/display, every user chord incl. itself, dangling} x attributes {none, built-in, user, dangling} x attribute file {absent, fresh, unnamed} x file order x {one file, split files} x shadowed display names, in-process and (every cycle + a regular sample) through the real binary.",
+   text="Built-ins complete (46 look-ups played and compared with the conventional table, every ordered pair as [A B A], name = display, 67 attribute names, generated = embedded = listed); all user dictionaries with n <= 2 (3 reduced in thorough) chords over the option product name {fresh, unnamed} x extends {none, built-in by name/display, every user chord incl. itself, dangling} x attributes {none, built-in, user, dangling} x attribute file {absent, fresh, unnamed} x file order x {one file, split files} x shadowed display names, in-process and (every cycle + a regular sample) through the real binary. Extends chains of 1..12 (20) user chords over built-in roots of depth 0..4 in three declaration orders, names of up to 1000 characters; user files that redefine built-ins (judged where both readings agree); 34 spellings of the dictionary files (comments, BOM, CR LF, directive, flow, JSON, anchors).",
    note="Trusted: ref/dict. Overriding entries excluded (the statement does not fix which definition wins).",
    technique="exhaustive small-scope enumeration of dictionaries on the real loader vs. reference loader",
    ref="DESIGN.md §4 C16"),
